@@ -1,5 +1,7 @@
 import Chess.Lemmas.Reach
 import Chess.Lemmas.SpecSums
+import Chess.Lemmas.ScoreRangePop
+import Chess.Lemmas.ScoreRangeExamples
 
 /-!
 # C16 — the evaluation score is the piece-square sum of the board
@@ -33,9 +35,41 @@ theorem phase_switch_keeps_the_sum {g : Game} (h : g.WF) :
     g.updatePhase.score = Spec.psq g.updatePhase.abs g.updatePhase.endgame :=
   wf_score_eq_spec (Game.updatePhase_wf h)
 
+/-- **C16.4 the 16-bit score never wraps.** The Rust score is an `i16` updated in place; the model
+uses `Int`. In every reachable game the score is within ±30565 (one king, the reader's material
+bound — preserved by every generated move — and the extreme entries of the regenerated tables). -/
+theorem score_fits_i16 {g : Game} (h : Reach g) : -32768 ≤ g.score ∧ g.score ≤ 32767 :=
+  Chess.Range.score_fits_i16 h
+
+/-- **C16.5** … and so does every intermediate value of the incremental computation: each
+`score -= old; score += new` half-step of every `set_position` of a push (checked or unchecked list,
+so also the trial pushes of the legality filter), of the king re-scoring at the phase switch, of a
+move played into the record, and of the take-back. -/
+theorem every_intermediate_score_fits_i16 {g : Game} (h : Reach g) :
+    (∀ b m, m ∈ (g.getMoves b).1 → ∀ s ∈ Chess.Range.pushTrace g m, -32768 ≤ s ∧ s ≤ 32767) ∧
+    (∀ s ∈ Chess.Range.phaseTrace g, -32768 ≤ s ∧ s ≤ 32767) ∧
+    (∀ m, m ∈ (g.getMoves true).1 → ∀ s ∈ Chess.Range.pushHistoryTrace g m, -32768 ≤ s ∧ s ≤ 32767) ∧
+    (∀ b m, m ∈ (g.getMoves b).1 → ∀ v ∈ Chess.Range.popTrace (g.push m) m, -32768 ≤ v ∧ v ≤ 32767) :=
+  ⟨fun _ _ hm => Chess.Range.push_intermediate_fits h hm, Chess.Range.updatePhase_intermediate_fits h,
+   fun _ hm => Chess.Range.pushHistory_intermediate_fits h hm, fun _ _ hm => Chess.Range.pop_intermediate_fits h hm⟩
+
+/-- the traces end in the model's own result: they are the traces of THIS computation -/
+theorem trace_ends_in_the_score (g : Game) (m : Move) :
+    ((Chess.Range.pushTrace g m).getLast?).getD g.score = (g.push m).score :=
+  Chess.Range.pushTrace_getLast g m
+
+/-- the material bound is needed: a board the reader refuses has a score beyond `i16` -/
+theorem material_bound_needed :
+    ∃ g : Game, g.score = sumAll g.pastScores ∧ Chess.Range.CacheBounded g.board g.pastScores
+      ∧ ¬ Chess.Range.MaterialInv g ∧ ¬ (g.score ≤ 32767) :=
+  Chess.Range.material_hypothesis_needed
+
 end Chess.Props.C16
 
 #print axioms Chess.Props.C16.score_is_the_psq_sum
 #print axioms Chess.Props.C16.score_route_independent
 #print axioms Chess.Props.C16.mirror_negates
 #print axioms Chess.Props.C16.phase_switch_keeps_the_sum
+#print axioms Chess.Props.C16.score_fits_i16
+#print axioms Chess.Props.C16.every_intermediate_score_fits_i16
+#print axioms Chess.Props.C16.material_bound_needed
